@@ -4,16 +4,15 @@ import Mahotas.Model.DType
 namespace Mahotas
 open Generated.C
 
-/-- **`dilate_add<T>` and `dilate_add<bool>` (C++ text) = `dilateAdd`** for heights `b ≥ 0` or `b` the dtype minimum
-    ("absent"): the standing assumption of C01/C02/C07 on structuring elements (`ASSUMPTIONS` of `harness/props/c01.py`).
-    The C++ tests `b >= 0 && r < a`; the model (written for such heights) tests `r < a` only — for a negative height
-    that is not the minimum the two differ, which is outside the domain the properties speak about. -/
-theorem cscalar_dilate_add_eq_model (dt : DT) (a b : Int) (hb : 0 ≤ b ∨ b = dt.lo) :
+/-- **`dilate_add<T>` and `dilate_add<bool>` (C++ text) = `dilateAdd`** for ALL values `a`, `b` (no hypothesis on the
+    height): the model tests `b ≥ 0 ∧ r < a` exactly as the repaired C++ does, so negative heights that are not the dtype
+    minimum (outside the documented domain of C01/C02/C07) are covered too. -/
+theorem cscalar_dilate_add_eq_model (dt : DT) (a b : Int) :
     dilateAdd dt a b = if dt.isBool then dilate_add_bool a b else dilate_add dt a b := by
   unfold dilateAdd dilate_add dilate_add_bool
   grind
 
 example : dilate_add (dtI 8) 100 100 = 127 ∧ dilate_add (dtI 8) (-5) 1 = -4 ∧ dilate_add (dtU 8) 200 100 = 255
-    ∧ dilate_add (dtI 8) (-128) 3 = -128 ∧ dilate_add_bool 1 1 = 1 := by decide
+    ∧ dilate_add (dtI 8) (-128) 3 = -128 ∧ dilate_add (dtI 8) 5 (-3) = 2 ∧ dilateAdd (dtI 8) 5 (-3) = 2 ∧ dilate_add_bool 1 1 = 1 := by decide
 
 end Mahotas
